@@ -88,6 +88,11 @@ theorem rawIterBase_inb {h0 : Heap} (hc : closedHeap h0 = true) {v : Val} {xs : 
       try exact hx
     · obtain ⟨p, hp, rfl⟩ := List.mem_map.mp hx
       exact ⟨p.1, p.2, hp, Or.inl rfl⟩
+  | sent n =>
+    simp only [rawIterBase] at hr
+    split at hr
+    · injection hr with hr; subst hr; intro x hx; simp at hx; subst hx; rfl
+    · cases hr
   | _ => simp [rawIterBase] at hr
 
 theorem attrOf_mem {as : List (String × Val)} {n : String} {w : Val} (ha : attrOf as n = some w) :
@@ -140,7 +145,9 @@ theorem rawIter1_inb {h0 : Heap} (hc : closedHeap h0 = true) {v : Val} {xs : Lis
         · cases hat : attrOf as "names" with
           | none => simp [hat] at hr
           | some w => simp only [hat] at hr; exact rawIterBase_inb hc hr
-        · cases hr
+        · split at hr
+          · injection hr with hr; subst hr; intro x hx; cases hx
+          · cases hr
       | _ => exact rawIterBase_inb hc hr
   | _ => simp only [rawIter1] at hr; exact rawIterBase_inb hc hr
 
@@ -204,10 +211,28 @@ theorem rawIter_ext2 {h0 h : Heap} (c : Ctx h0 h) {v : Val} (hv : Val.inb h0.len
     rawIter h v = rawIter h0 v := by
   rw [rawIter_ext c hv, rawIter_ext (Ctx.base c.closed) hv]
 
+theorem iterStrict_ext {h0 h : Heap} (c : Ctx h0 h) {v : Val} (hv : Val.inb h0.length v = true) :
+    iterStrict h v = iterStrict h0 v := by
+  simp only [iterStrict, rawIter_ext2 c hv]
+
+theorem iterStrict_inb {h0 : Heap} (hc : closedHeap h0 = true) {v : Val} (hv : Val.inb h0.length v = true)
+    {xs : List Val} (hr : iterStrict h0 v = .ok xs) : ∀ x ∈ xs, Val.inb h0.length x = true := by
+  unfold iterStrict at hr
+  cases hi : rawIter h0 v with
+  | none => simp [hi] at hr
+  | some ys =>
+    simp only [hi] at hr
+    cases hf : firstRaise ys with
+    | some cl => simp [hf] at hr
+    | none =>
+      simp only [hf] at hr
+      injection hr with hr; subst hr
+      exact rawIter_inb (Ctx.base hc) hv hi
+
 theorem pyAdd_ext {h0 h : Heap} (c : Ctx h0 h) (ip : Bool) (sv : SV) {v : Val}
     (hv : Val.inb h0.length v = true) : pyAdd ip h sv v = pyAdd ip h0 sv v := by
   unfold pyAdd
-  rw [rawIter_ext2 c hv]
+  rw [iterStrict_ext c hv]
   cases v with
   | ref b => simp only [c.get (inb_ref.mp hv)]
   | _ => rfl
@@ -215,12 +240,12 @@ theorem pyAdd_ext {h0 h : Heap} (c : Ctx h0 h) (ip : Bool) (sv : SV) {v : Val}
 theorem pairOf_ext {h0 h : Heap} (c : Ctx h0 h) {v : Val} (hv : Val.inb h0.length v = true) :
     pairOf h v = pairOf h0 v := by
   unfold pairOf
-  rw [rawIter_ext2 c hv]
+  rw [iterStrict_ext c hv]
   split
   · rfl
   · rename_i k x heq
     have hk : Val.inb h0.length k = true :=
-      rawIter_inb (Ctx.base c.closed) hv heq k (by simp)
+      iterStrict_inb c.closed hv heq k (by simp)
     rw [hashable_ext c hk]
   · rfl
 
@@ -235,10 +260,10 @@ theorem pairsOf_ext {h0 h : Heap} (c : Ctx h0 h) {xs : List Val} (hx : ∀ x ∈
 theorem updateSeq_ext {h0 h : Heap} (c : Ctx h0 h) {v : Val} (hv : Val.inb h0.length v = true) :
     updateSeq h v = updateSeq h0 v := by
   unfold updateSeq
-  rw [rawIter_ext2 c hv]
-  cases hr : rawIter h0 v with
-  | none => rfl
-  | some items => exact pairsOf_ext c (rawIter_inb (Ctx.base c.closed) hv hr)
+  rw [iterStrict_ext c hv]
+  cases hr : iterStrict h0 v with
+  | error e => rfl
+  | ok items => exact pairsOf_ext c (iterStrict_inb c.closed hv hr)
 
 theorem updatePairs_ext {h0 h : Heap} (c : Ctx h0 h) {v : Val} (hv : Val.inb h0.length v = true) :
     updatePairs h v = updatePairs h0 v := by
@@ -259,6 +284,21 @@ theorem pyOp_ext {h0 h : Heap} (c : Ctx h0 h) (op : Op) (sv : SV) {v : Val}
     | _ => rfl
   | append => rfl
   | cons => rfl
+  | extend => simp only [pyOp, iterStrict_ext c hv]
+  | appendNone => rfl
+  | dictUnion =>
+    cases v with
+    | ref a => simp only [pyOp, c.get (inb_ref.mp hv)]
+    | _ => rfl
+  | addSeq =>
+    cases v with
+    | ref a => simp only [pyOp, c.get (inb_ref.mp hv)]
+    | _ => rfl
+  | pokeElem =>
+    cases v with
+    | ref a => simp only [pyOp, c.get (inb_ref.mp hv)]
+    | _ => rfl
+  | notCallable => rfl
 
 /-! ### what the operators return -/
 
@@ -267,10 +307,33 @@ def SV.ok : SV → Prop
   | .imm v => ∀ a, v ≠ .ref a
   | .cell o => objNotChain o = true
 
-/-- an in-place result only ever comes from a container accumulator -/
-theorem pyOp_imm {op : Op} {h : Heap} {x v : Val} {r : OpRes} (hr : pyOp op h (.imm x) v = .ok r) :
-    ∃ sv, r = .value sv := by
+/-- an operator of the catalogue other than `pokeElem` writes to nothing but its accumulator -/
+theorem pyOp_noOther {op : Op} (hop : op ≠ .pokeElem) {h : Heap} {sv : SV} {v : Val} {a : Nat} {o : Obj} :
+    pyOp op h sv v ≠ .ok (.writeOther a o) := by
+  intro hr
   cases op with
+  | pokeElem => exact hop rfl
+  | iadd | add =>
+    simp only [pyOp, pyAdd] at hr
+    repeat (first | (split at hr) | (injection hr with hr; cases hr) | contradiction)
+  | count =>
+    simp only [pyOp] at hr
+    repeat (first | (split at hr) | (injection hr with hr; cases hr) | contradiction)
+  | update cls =>
+    simp only [pyOp, pyUpdate] at hr
+    repeat (first | (split at hr) | (injection hr with hr; cases hr) | contradiction)
+  | firstWins =>
+    simp only [pyOp, pyFirstWins] at hr
+    repeat (first | (split at hr) | (injection hr with hr; cases hr) | contradiction)
+  | append | cons | extend | appendNone | dictUnion | addSeq | notCallable =>
+    simp only [pyOp] at hr
+    repeat (first | (split at hr) | (injection hr with hr; cases hr) | contradiction)
+
+/-- an in-place result only ever comes from a container accumulator -/
+theorem pyOp_imm {op : Op} (hop : op ≠ .pokeElem) {h : Heap} {x v : Val} {r : OpRes}
+    (hr : pyOp op h (.imm x) v = .ok r) : ∃ sv, r = .value sv := by
+  cases op with
+  | pokeElem => exact absurd rfl hop
   | iadd | add =>
     simp only [pyOp, pyAdd] at hr
     repeat (first | (split at hr) | (injection hr with hr; subst hr; exact ⟨_, rfl⟩) | contradiction)
@@ -283,14 +346,15 @@ theorem pyOp_imm {op : Op} {h : Heap} {x v : Val} {r : OpRes} (hr : pyOp op h (.
   | firstWins =>
     simp only [pyOp, pyFirstWins] at hr
     repeat (first | (split at hr) | (injection hr with hr; subst hr; exact ⟨_, rfl⟩) | contradiction)
-  | append => simp [pyOp] at hr
-  | cons => simp [pyOp] at hr
+  | append | cons | extend | appendNone | dictUnion | addSeq | notCallable =>
+    simp only [pyOp] at hr
+    repeat (first | (split at hr) | (injection hr with hr; subst hr; exact ⟨_, rfl⟩) | contradiction)
 
 theorem numAdd_not_ref (x y : Num) (a : Nat) : numAdd x y ≠ .ref a := by
   cases x <;> cases y <;> simp [numAdd]
 
 theorem pyOp_ok {op : Op} {h : Heap} {sv : SV} {v : Val} {r : OpRes} (hs : sv.ok)
-    (hr : pyOp op h sv v = .ok r) : (foldRet r).ok ∧ (mergeRet sv r).ok := by
+    (hr : pyOp op h sv v = .ok r) : (foldRet sv r).ok ∧ (mergeRet sv r).ok := by
   cases op with
   | iadd | add =>
     simp only [pyOp, pyAdd] at hr
@@ -320,14 +384,7 @@ theorem pyOp_ok {op : Op} {h : Heap} {sv : SV} {v : Val} {r : OpRes} (hs : sv.ok
       | (injection hr with hr; subst hr; refine ⟨?_, ?_⟩ <;>
           first | exact hs | (intro a; simp) | (simp [foldRet, mergeRet, SV.ok, objNotChain]))
       | contradiction)
-  | append =>
-    simp only [pyOp] at hr
-    repeat (first
-      | (split at hr)
-      | (injection hr with hr; subst hr; refine ⟨?_, ?_⟩ <;>
-          first | exact hs | (intro a; simp) | (simp [foldRet, mergeRet, SV.ok, objNotChain]))
-      | contradiction)
-  | cons =>
+  | append | cons | extend | appendNone | dictUnion | addSeq | pokeElem | notCallable =>
     simp only [pyOp] at hr
     repeat (first
       | (split at hr)
@@ -335,23 +392,50 @@ theorem pyOp_ok {op : Op} {h : Heap} {sv : SV} {v : Val} {r : OpRes} (hs : sv.ok
           first | exact hs | (intro a; simp) | (simp [foldRet, mergeRet, SV.ok, objNotChain]))
       | contradiction)
 
-/-- **the three laws an operator must meet** for the loops to refine `functools.reduce`, to leave
+/-- **the laws an operator must meet** for the loops to refine `functools.reduce`, to leave
     the inputs alone and to return fresh objects (relative to the input heap `h0`):
-    `ext`  what it computes depends on the accumulator's VALUE and on input objects only,
-           and those it only reads;
-    `imm`  an immediate accumulator cannot be mutated in place;
-    `ok`   what it returns is an immediate or a container of its own (never a reference to a
-           pre-existing object, never a chain object). -/
+    `ext`      what it computes depends on the accumulator's VALUE and on input objects only,
+               and those it only reads;
+    `noOther`  it writes to no object but its accumulator (an operator that mutates its ELEMENT
+               — `OpRes.writeOther`, e.g. `lambda a, v: (v.append(0), a)[1]` — is outside);
+    `imm`      an immediate accumulator cannot be mutated in place;
+    `ok`       what it returns is an immediate or a container of its own (never a reference to a
+               pre-existing object, never a chain object). -/
 structure OpLaw (h0 : Heap) (f : OpFn) : Prop where
   ext : ∀ {h : Heap}, Ctx h0 h → ∀ (sv : SV) {v : Val}, Val.inb h0.length v = true → f h sv v = f h0 sv v
+  noOther : ∀ {h : Heap} {sv : SV} {v : Val} {a : Nat} {o : Obj}, f h sv v ≠ .ok (.writeOther a o)
   imm : ∀ {h : Heap} {x v : Val} {r : OpRes}, f h (.imm x) v = .ok r → ∃ sv, r = .value sv
   ok : ∀ {h : Heap} {sv : SV} {v : Val} {r : OpRes}, sv.ok → f h sv v = .ok r →
-    (foldRet r).ok ∧ (mergeRet sv r).ok
+    (foldRet sv r).ok ∧ (mergeRet sv r).ok
 
-/-- every operator of the catalogue (`+=`, `+`, Count's lambda, `dict.update` / `Acc.update`,
-    `first_wins`, `append`, `cons`) meets the laws -/
-theorem pyOp_law (h0 : Heap) (op : Op) : OpLaw h0 (pyOp op) :=
-  ⟨fun c sv _ hv => pyOp_ext c op sv hv, fun hr => pyOp_imm hr, fun hs hr => pyOp_ok hs hr⟩
+/-- every operator of the catalogue but the element-poking one meets the laws -/
+theorem pyOp_law (h0 : Heap) (op : Op) (hop : op ≠ .pokeElem) : OpLaw h0 (pyOp op) :=
+  ⟨fun c sv _ hv => pyOp_ext c op sv hv, pyOp_noOther hop, fun hr => pyOp_imm hop hr,
+   fun hs hr => pyOp_ok hs hr⟩
+
+/-- the loop's own check — the iterator may raise instead of yielding — keeps an operator lawful -/
+theorem guardOp_law {h0 : Heap} {f : OpFn} (L : OpLaw h0 f) : OpLaw h0 (guardOp f) := by
+  refine ⟨?_, ?_, ?_, ?_⟩
+  · intro h c sv v hv
+    simp only [guardOp]
+    cases raiseMarker v with
+    | some cl => rfl
+    | none => exact L.ext c sv hv
+  · intro h sv v a o hr
+    simp only [guardOp] at hr
+    cases hm : raiseMarker v with
+    | some cl => simp [hm] at hr
+    | none => rw [hm] at hr; exact L.noOther hr
+  · intro h x v r hr
+    simp only [guardOp] at hr
+    cases hm : raiseMarker v with
+    | some cl => simp [hm] at hr
+    | none => rw [hm] at hr; exact L.imm hr
+  · intro h sv v r hs hr
+    simp only [guardOp] at hr
+    cases hm : raiseMarker v with
+    | some cl => simp [hm] at hr
+    | none => rw [hm] at hr; exact L.ok hs hr
 
 /-! ### the accumulator object and its value -/
 
@@ -432,6 +516,7 @@ theorem opStep_fold {h0 h : Heap} (c : Ctx h0 h) {b : Nat} (hb : h0.length ≤ b
         obtain ⟨a, rfl, h2, h3, _⟩ := hh
         refine ⟨.none, h.set a o, rfl, Frame.set hbl h2 o, rfl, ?_⟩
         intro a'; simp
+    | writeOther a o => exact absurd hp L.noOther
 
 /-- one step of Merge's `op(ret, v)` (result dropped) is one step of the pure merge -/
 theorem opStep_merge {h0 h : Heap} (c : Ctx h0 h) {b : Nat} (hb : h0.length ≤ b) (hbl : b ≤ h.length)
@@ -465,6 +550,7 @@ theorem opStep_merge {h0 h : Heap} (c : Ctx h0 h) {b : Nat} (hb : h0.length ≤ 
         obtain ⟨a, rfl, h2, h3, _⟩ := hh
         refine ⟨.none, h.set a o, rfl, Frame.set hbl h2 o, a, rfl, h2, ?_, hok⟩
         simp [List.getElem?_set, get_lt h3]
+    | writeOther a o => exact absurd hp L.noOther
 
 /-- **Fold._fold's loop refines functools.reduce** — for every lawful operator -/
 theorem foldLoop_spec {h0 : Heap} (hc : closedHeap h0 = true) {b : Nat} (hb : h0.length ≤ b)
@@ -670,11 +756,27 @@ theorem itemsAttrIter_inb {h0 : Heap} (hc : closedHeap h0 = true) {v : Val} {ite
       | _ => simp [ho] at hr
   | _ => simp [itemsAttrIter] at hr
 
+theorem drainedIter_ext {h0 h : Heap} (c : Ctx h0 h) {v : Val} (hv : Val.inb h0.length v = true) :
+    drainedIter h v = drainedIter h0 v := by
+  simp only [drainedIter, rawIter_ext2 c hv]
+
+theorem drainedIter_inb {h0 : Heap} (hc : closedHeap h0 = true) {v : Val} (hv : Val.inb h0.length v = true)
+    {xs : List Val} (hr : drainedIter h0 v = some xs) : ∀ x ∈ xs, Val.inb h0.length x = true := by
+  unfold drainedIter at hr
+  cases hi : rawIter h0 v with
+  | none => simp [hi] at hr
+  | some ys =>
+    simp only [hi] at hr
+    split at hr
+    · cases hr
+    · injection hr with hr; subst hr
+      exact rawIter_inb (Ctx.base hc) hv hi
+
 /-- what a handler of the catalogue yields is stable -/
 theorem runHandler_ext {h0 h : Heap} (c : Ctx h0 h) (hn : String) {v : Val} (hv : Val.inb h0.length v = true) :
     runHandler hn h v = runHandler hn h0 v := by
   unfold runHandler
-  rw [rawIter_ext2 c hv, itemsAttrIter_ext c hv]
+  rw [rawIter_ext2 c hv, itemsAttrIter_ext c hv, drainedIter_ext c hv]
 
 /-- … and consists of input values -/
 theorem runHandler_inb {h0 : Heap} (hc : closedHeap h0 = true) (hn : String) {v : Val}
@@ -685,23 +787,23 @@ theorem runHandler_inb {h0 : Heap} (hc : closedHeap h0 = true) (hn : String) {v 
   split at hr
   · exact rawIter_inb c0 hv hr
   · split at hr
-    · cases hri : rawIter h0 v with
+    · cases hri : drainedIter h0 v with
       | none => simp [hri] at hr
       | some ys =>
         simp only [hri, Option.map_some, Option.some.injEq] at hr
         subst hr
         intro x hx
-        exact rawIter_inb c0 hv hri x (List.mem_reverse.mp hx)
+        exact drainedIter_inb hc hv hri x (List.mem_reverse.mp hx)
     · split at hr
-      · cases hri : rawIter h0 v with
+      · cases hri : drainedIter h0 v with
         | none => simp [hri] at hr
         | some ys =>
           simp only [hri, Option.map_some, Option.some.injEq] at hr
           subst hr
           intro x hx
-          exact rawIter_inb c0 hv hri x (mem_drop_one hx)
+          exact drainedIter_inb hc hv hri x (mem_drop_one hx)
       · split at hr
-        · exact rawIter_inb c0 hv hr
+        · exact drainedIter_inb hc hv hr
         · split at hr
           · exact itemsAttrIter_inb hc hr
           · cases hr
@@ -808,6 +910,8 @@ theorem callInit_law {h0 : Heap} {i : Init} (hi : InitOK h0 i) :
   | odict =>
     exact ⟨_, rfl, fun h _ => materialise_holds (Nat.le_refl _) (sv := .cell (.dict "OrderedDict" [])) rfl⟩
   | acc => exact ⟨_, rfl, fun h _ => materialise_holds (Nat.le_refl _) (sv := .cell (.list "Acc" [])) rfl⟩
+  | set => exact ⟨_, rfl, fun h _ => materialise_holds (Nat.le_refl _) (sv := .cell (.set "set" [])) rfl⟩
+  | notCallable => exact absurd hi.wf (by simp [Init.wf])
   | copyOf v =>
     cases v with
     | ref a =>
@@ -890,30 +994,32 @@ theorem mergeWith_spec {h0 h : Heap} (c : Ctx h0 h) {ini : InitFn} {sv0 : SV} (I
     exact this
 
 theorem foldKind_spec {h0 h : Heap} (c : Ctx h0 h) (init : Init) (op : Op) (hs : InitOK h0 init)
+    (hop : op ≠ .pokeElem)
     {items : List Val} (hi : ∀ x ∈ items, Val.inb h0.length x = true) :
-    let out := foldWith (callInit init) (pyOp op) items h
+    let out := foldWith (callInit init) (guardOp (pyOp op)) items h
     Frame h.length h out.2 ∧
-      ResRel h0.length h.length out (withInit h0 init (refReduce (foldStep (pyOp op) h0) items)) := by
+      ResRel h0.length h.length out (withInit h0 init (refReduce (foldStep (guardOp (pyOp op)) h0) items)) := by
   obtain ⟨sv, hsv, I⟩ := callInit_law hs
   simp only [withInit, hsv]
-  exact foldWith_spec c I (pyOp_law h0 op) hi
+  exact foldWith_spec c I (guardOp_law (pyOp_law h0 op hop)) hi
 
 theorem mergeKind_spec {h0 h : Heap} (c : Ctx h0 h) (init : Init) (op : Op) (hs : InitOK h0 init)
+    (hop : op ≠ .pokeElem)
     {items : List Val} (hi : ∀ x ∈ items, Val.inb h0.length x = true) :
-    let out := mergeWith (callInit init) (pyOp op) items h
+    let out := mergeWith (callInit init) (guardOp (pyOp op)) items h
     Frame h.length h out.2 ∧
-      ResRel h0.length h.length out (withInit h0 init (refReduce (mergeStep (pyOp op) h0) items)) := by
+      ResRel h0.length h.length out (withInit h0 init (refReduce (mergeStep (guardOp (pyOp op)) h0) items)) := by
   obtain ⟨sv, hsv, I⟩ := callInit_law hs
   simp only [withInit, hsv]
-  exact mergeWith_spec c I (pyOp_law h0 op) hi
+  exact mergeWith_spec c I (guardOp_law (pyOp_law h0 op hop)) hi
 
 theorem runFold_spec {h0 h : Heap} (c : Ctx h0 h) (s : FoldSpec) (hs : InitOK h0 s.init)
-    {items : List Val} (hi : ∀ x ∈ items, Val.inb h0.length x = true) :
+    (hop : s.op ≠ .pokeElem) {items : List Val} (hi : ∀ x ∈ items, Val.inb h0.length x = true) :
     Frame h.length h (runFold s items h).2 ∧
       ResRel h0.length h.length (runFold s items h) (refKind h0 s items) := by
   unfold runFold refKind
   cases hk : s.kind with
-  | fold => exact foldKind_spec c s.init s.op hs hi
+  | fold => exact foldKind_spec c s.init s.op hs hop hi
   | flatten =>
     simp only
     by_cases hl : s.lazy = true
@@ -921,12 +1027,12 @@ theorem runFold_spec {h0 h : Heap} (c : Ctx h0 h) (s : FoldSpec) (hs : InitOK h0
       refine ⟨Frame.append (Nat.le_refl _) _, h.length, rfl, Nat.le_refl _, by simp [materialise], ?_⟩
       intro _; exact hi
     · simp only [hl, if_false]
-      exact foldKind_spec c s.init s.op hs hi
-  | merge => exact mergeKind_spec c s.init s.op hs hi
+      exact foldKind_spec c s.init s.op hs hop hi
+  | merge => exact mergeKind_spec c s.init s.op hs hop hi
 
 theorem glomit_spec {h0 h : Heap} (c : Ctx h0 h) (env : Env) (hH : HandlerLaw h0 env)
     (hcatch : regLookup env.foldCatch "UnregisteredTarget" = some "FoldError")
-    (s : FoldSpec) (hs : InitOK h0 s.init) {target : Val}
+    (s : FoldSpec) (hs : InitOK h0 s.init) (hop : s.op ≠ .pokeElem) {target : Val}
     (hsub : ∀ k ∈ s.sub, Val.inb h0.length k = true) (ht : Val.inb h0.length target = true) :
     Frame h.length h (glomit env s h target).2 ∧
       ResRel h0.length h.length (glomit env s h target) (refSpec env h0 s target) := by
@@ -943,7 +1049,7 @@ theorem glomit_spec {h0 h : Heap} (c : Ctx h0 h) (env : Env) (hH : HandlerLaw h0
       cases ie with
       | unregistered => exact ⟨Frame.rfl' (Nat.le_refl _), by simp [convertIterErr, hcatch, ResRel]⟩
       | raised cls => exact ⟨Frame.rfl' (Nat.le_refl _), rfl⟩
-    | ok items => exact runFold_spec c s hs (targetIter_inb hH htin hti)
+    | ok items => exact runFold_spec c s hs hop (targetIter_inb hH htin hti)
 
 /-! ### flatten(levels=n): n-fold join -/
 
@@ -1010,7 +1116,7 @@ theorem refAfter_eq (h0 : Heap) (init : InitArg) (j : Option (List Val)) :
       | some ys =>
         match init with
         | .lazy => .new (.tuple "chain" ys)
-        | .init i => withInit h0 i (refReduce (foldStep (pyOp .iadd) h0) ys)) = refAfter h0 init j := by
+        | .init i => withInit h0 i (refReduce (foldStep (guardOp (pyOp .iadd)) h0) ys)) = refAfter h0 init j := by
   cases j with
   | none => rfl
   | some ys => cases init <;> rfl
@@ -1042,7 +1148,7 @@ theorem chainStage_spec {h0 : Heap} (hc : closedHeap h0 = true) (env : Env) (hH 
     simp only [hsub, evalSub, targetIter_chain c env hchain ha hx, joinN_succ, joinN]
     cases hj : joinWith (rawIter1 h0) xs with
     | none => exact ⟨Frame.rfl' (Nat.le_refl _), rfl⟩
-    | some ys => exact runFold_spec c _ hfin (joinWith_inb hc hj)
+    | some ys => exact runFold_spec c _ hfin (by cases init <;> simp [mkFlatten]) (joinWith_inb hc hj)
   | succ k ih =>
     intro h a xs hf ha hx
     have c : Ctx h0 h := ⟨hc, hf⟩
@@ -1065,13 +1171,14 @@ theorem chainStage_spec {h0 : Heap} (hc : closedHeap h0 = true) (env : Env) (hH 
       exact ⟨hfr.trans hfr.1 this.1, ResRel.mono hfr.1 this.2⟩
 
 theorem refFlattenFn_pos (env : Env) (h0 : Heap) (sub : List Val) (init : InitArg) (levels : Int)
-    (target : Val) (hl0 : (levels == 0) = false) (hneg : ¬ levels < 0) :
+    (target : Val) (hl0 : (levels == 0) = false) (hneg : ¬ levels < 0)
+    (hnc : (init == .init .notCallable) = false) :
     refFlattenFn env h0 sub init levels target =
       match refItems env h0 sub target with
       | .error e => .err e
       | .ok items => refAfter h0 init (joinN h0 (levels.toNat - 1) items) := by
   unfold refFlattenFn
-  simp only [hl0, Bool.false_eq_true, if_false, hneg]
+  simp only [hl0, Bool.false_eq_true, if_false, hneg, hnc]
   cases refItems env h0 sub target with
   | error e => rfl
   | ok items => exact refAfter_eq h0 init _
@@ -1079,12 +1186,11 @@ theorem refFlattenFn_pos (env : Env) (h0 : Heap) (sub : List Val) (init : InitAr
 theorem flattenFn_spec {h0 h : Heap} (c : Ctx h0 h) (env : Env) (hH : HandlerLaw h0 env) {levels : Int}
     (hchain : 2 ≤ levels → ChainOK env)
     (hcatch : regLookup env.foldCatch "UnregisteredTarget" = some "FoldError")
-    (sub : List Val) (init : InitArg) (hinit : InitArgOK h0 init) {target : Val}
+    (sub : List Val) (init : InitArg) (hinit' : init = .init .notCallable ∨ InitArgOK h0 init) {target : Val}
     (hsub : ∀ k ∈ sub, Val.inb h0.length k = true) (ht : Val.inb h0.length target = true) :
     Frame h.length h (flattenFn env sub init levels h target).2 ∧
       ResRel h0.length h.length (flattenFn env sub init levels h target)
         (refFlattenFn env h0 sub init levels target) := by
-  have hfin : InitOK h0 (mkFlatten [] init).init := hinit.mk
   by_cases h0l : (levels == 0) = true
   · unfold flattenFn refFlattenFn
     simp only [h0l, if_true]; exact ⟨Frame.rfl' (Nat.le_refl _), rfl, ht⟩
@@ -1093,9 +1199,19 @@ theorem flattenFn_spec {h0 h : Heap} (c : Ctx h0 h) (env : Env) (hH : HandlerLaw
     · unfold flattenFn refFlattenFn
       simp only [h0l', Bool.false_eq_true, if_false, hneg, if_true]
       exact ⟨Frame.rfl' (Nat.le_refl _), rfl⟩
-    · rw [refFlattenFn_pos env h0 sub init levels target h0l' hneg]
+    · by_cases hnc : (init == .init .notCallable) = true
+      · unfold flattenFn refFlattenFn
+        simp only [h0l', Bool.false_eq_true, if_false, hneg, hnc, if_true]
+        exact ⟨Frame.rfl' (Nat.le_refl _), rfl⟩
+      have hnc' : (init == .init .notCallable) = false := by simpa using hnc
+      have hinit : InitArgOK h0 init := by
+        rcases hinit' with h1 | h1
+        · rw [h1] at hnc'; simp at hnc'
+        · exact h1
+      have hfin : InitOK h0 (mkFlatten [] init).init := hinit.mk
+      rw [refFlattenFn_pos env h0 sub init levels target h0l' hneg hnc']
       unfold flattenFn
-      simp only [h0l', Bool.false_eq_true, if_false, hneg]
+      simp only [h0l', Bool.false_eq_true, if_false, hneg, hnc']
       have hes := evalSub_ext c sub target hsub ht
       unfold refItems
       rw [hes.1]
@@ -1107,8 +1223,8 @@ theorem flattenFn_spec {h0 h : Heap} (c : Ctx h0 h) (env : Env) (hH : HandlerLaw
         cases hk : levels.toNat - 1 with
         | zero =>
           simp only [List.replicate, List.nil_append, chainEval_single, joinN]
-          have hg := glomit_spec c env hH hcatch (mkFlatten [] init) hfin (target := t)
-            (by cases init <;> simp [mkFlatten]) htin
+          have hg := glomit_spec c env hH hcatch (mkFlatten [] init) hfin (by cases init <;> simp [mkFlatten])
+            (target := t) (by cases init <;> simp [mkFlatten]) htin
           have hsub' : (mkFlatten [] init).sub = [] := by cases init <;> rfl
           simp only [refSpec, refItems, hsub', evalSub] at hg
           cases hti : targetIter env h0 t with
@@ -1151,13 +1267,29 @@ theorem Holds.clsName {h : Heap} {b : Nat} {acc : Val} {sv : SV} (hh : Holds h b
     obtain ⟨a, rfl, _, h3, _⟩ := hh
     simp [Val.clsName, h3]
 
+/-- `Merge.__init__` with an `init` that is not callable: refused, whatever `op` is -/
+theorem mkMerge_notCallable (h0 : Heap) (sub : List Val) (op : MergeOpArg) (h : Heap) :
+    (mkMerge sub .notCallable op h).2 = h ∧
+      (mkMerge sub .notCallable op h).1 =
+        (match refMergeOp h0 .notCallable op with
+         | .ok o => .ok ⟨.merge, sub, .notCallable, o, false⟩
+         | .error e => .error e) := by
+  cases op <;> exact ⟨rfl, rfl⟩
+
 theorem mkMerge_spec {h0 h : Heap} (c : Ctx h0 h) (sub : List Val) (init : Init) (op : MergeOpArg)
-    (hi : InitOK h0 init) :
+    (hi' : init = .notCallable ∨ InitOK h0 init) :
     Frame h.length h (mkMerge sub init op h).2 ∧
       (mkMerge sub init op h).1 =
         (match refMergeOp h0 init op with
          | .ok o => .ok ⟨.merge, sub, init, o, false⟩
          | .error e => .error e) := by
+  by_cases hnc : init = .notCallable
+  · subst hnc
+    have := mkMerge_notCallable h0 sub op h
+    rw [this.1]
+    exact ⟨Frame.rfl' (Nat.le_refl _), this.2⟩
+  have hi : InitOK h0 init := hi'.resolve_left hnc
+  have hnb : (init == Init.notCallable) = false := by simpa using hnc
   obtain ⟨sv, hsv, I⟩ := callInit_law hi
   obtain ⟨hf, hh⟩ := I h c
   have hcls := hh.clsName h0
@@ -1187,18 +1319,73 @@ theorem mkMerge_spec {h0 h : Heap} (c : Ctx h0 h) (sub : List Val) (init : Init)
     | imm v => dsimp only; cases methodOf (v.clsName h0) n <;> exact ⟨hf, rfl⟩
     | cell o => dsimp only; cases methodOf o.cls n <;> exact ⟨hf, rfl⟩
   cases op with
-  | none => exact key "update"
-  | name n => exact key n
-  | iadd => exact ⟨Frame.rfl' (Nat.le_refl _), rfl⟩
-  | firstWins => exact ⟨Frame.rfl' (Nat.le_refl _), rfl⟩
+  | none => simp only [mkMerge, refMergeOp, hnb, Bool.false_eq_true, if_false]; exact key "update"
+  | name n => simp only [mkMerge, refMergeOp, hnb, Bool.false_eq_true, if_false]; exact key n
+  | iadd =>
+    simp only [mkMerge, refMergeOp, hnb, Bool.false_eq_true, if_false]; exact ⟨Frame.rfl' (Nat.le_refl _), trivial⟩
+  | firstWins =>
+    simp only [mkMerge, refMergeOp, hnb, Bool.false_eq_true, if_false]; exact ⟨Frame.rfl' (Nat.le_refl _), trivial⟩
+  | dictUnion =>
+    simp only [mkMerge, refMergeOp, hnb, Bool.false_eq_true, if_false]; exact ⟨Frame.rfl' (Nat.le_refl _), trivial⟩
+  | notCallable => exact ⟨Frame.rfl' (Nat.le_refl _), rfl⟩
+
+theorem methodOf_ne_poke {c n : String} {o : Op} (h : methodOf c n = some o) : o ≠ .pokeElem := by
+  intro ho; subst ho
+  unfold methodOf at h
+  split at h
+  · cases h
+  · split at h
+    · cases h
+    · split at h
+      · cases h
+      · cases h
+
+/-- a Merge that was built has a callable `init` and an operator that writes to its accumulator only -/
+theorem refMergeOp_ok {h0 : Heap} {init : Init} {op : MergeOpArg} {o : Op} (h : refMergeOp h0 init op = .ok o) :
+    init ≠ .notCallable ∧ o ≠ .pokeElem := by
+  have hnc : init ≠ .notCallable := by
+    intro hn; subst hn; cases op <;> simp [refMergeOp] at h
+  refine ⟨hnc, ?_⟩
+  have hnb : (init == Init.notCallable) = false := by simpa using hnc
+  have key : ∀ n : String,
+      (match initSV h0 init with
+        | some (.cell ob) => (match methodOf ob.cls n with
+          | some o => Except.ok o
+          | none => Except.error (Err.raised "ValueError"))
+        | some (.imm v) => (match methodOf (v.clsName h0) n with
+          | some o => Except.ok o
+          | none => Except.error (Err.raised "ValueError"))
+        | none => Except.error (Err.raised "ValueError")) = Except.ok o → o ≠ .pokeElem := by
+    intro n hk
+    cases hi : initSV h0 init with
+    | none => simp [hi] at hk
+    | some sv =>
+      cases sv with
+      | cell ob =>
+        simp only [hi] at hk
+        cases hm : methodOf ob.cls n with
+        | none => simp [hm] at hk
+        | some o' => simp only [hm] at hk; injection hk with hk; subst hk; exact methodOf_ne_poke hm
+      | imm v =>
+        simp only [hi] at hk
+        cases hm : methodOf (v.clsName h0) n with
+        | none => simp [hm] at hk
+        | some o' => simp only [hm] at hk; injection hk with hk; subst hk; exact methodOf_ne_poke hm
+  cases op with
+  | none => simp only [refMergeOp, hnb, Bool.false_eq_true, if_false] at h; exact key "update" h
+  | name n => simp only [refMergeOp, hnb, Bool.false_eq_true, if_false] at h; exact key n h
+  | iadd => simp only [refMergeOp, hnb, Bool.false_eq_true, if_false] at h; injection h with h; subst h; decide
+  | firstWins => simp only [refMergeOp, hnb, Bool.false_eq_true, if_false] at h; injection h with h; subst h; decide
+  | dictUnion => simp only [refMergeOp, hnb, Bool.false_eq_true, if_false] at h; injection h with h; subst h; decide
+  | notCallable => simp [refMergeOp] at h
 
 theorem mergeFn_spec {h0 h : Heap} (c : Ctx h0 h) (env : Env) (hH : HandlerLaw h0 env)
     (hcatch : regLookup env.foldCatch "UnregisteredTarget" = some "FoldError")
-    (sub : List Val) (init : Init) (op : MergeOpArg) (hinit : InitOK h0 init) {target : Val}
+    (sub : List Val) (init : Init) (op : MergeOpArg) (hinit' : init = .notCallable ∨ InitOK h0 init) {target : Val}
     (hsub : ∀ k ∈ sub, Val.inb h0.length k = true) (ht : Val.inb h0.length target = true) :
     Frame h.length h (mergeFn env sub init op h target).2 ∧
       ResRel h0.length h.length (mergeFn env sub init op h target) (refMerge env h0 sub init op target) := by
-  have hm := mkMerge_spec c sub init op hinit
+  have hm := mkMerge_spec c sub init op hinit'
   unfold mergeFn refMerge
   rcases hmk : mkMerge sub init op h with ⟨r, h1⟩
   rw [hmk] at hm
@@ -1211,8 +1398,10 @@ theorem mergeFn_spec {h0 h : Heap} (c : Ctx h0 h) (env : Env) (hH : HandlerLaw h
   | ok o =>
     rw [hro] at hm
     simp only [hm.2]
+    have hok := refMergeOp_ok hro
+    have hinit : InitOK h0 init := hinit'.resolve_left hok.1
     have c1 : Ctx h0 h1 := c.step c.frame.1 hm.1
-    have := glomit_spec c1 env hH hcatch ⟨.merge, sub, init, o, false⟩ hinit hsub ht
+    have := glomit_spec c1 env hH hcatch ⟨.merge, sub, init, o, false⟩ hinit hok.2 hsub ht
     exact ⟨hm.1.trans hm.1.1 this.1, ResRel.mono hm.1.1 this.2⟩
 
 /-! ### sequences of evaluations and what an observer sees -/
@@ -1373,6 +1562,192 @@ theorem refReduce_eq_foldlM (step : SV → Val → Except Err SV) (items : List 
     | error e => rfl
     | ok sv' => exact ih sv'
 
+/-- none of these items is a raise-marker -/
+def NM (xs : List Val) : Prop := ∀ x ∈ xs, raiseMarker x = none
+
+theorem firstRaise_none_iff (xs : List Val) : firstRaise xs = none ↔ NM xs := by
+  induction xs with
+  | nil => simp [firstRaise, NM]
+  | cons x xs ih =>
+    simp only [firstRaise, NM, List.mem_cons, forall_eq_or_imp]
+    cases hx : raiseMarker x with
+    | some c => simp
+    | none => simp only [true_and]; exact ih
+
+theorem guardOp_nm {f : OpFn} {h : Heap} {sv : SV} {v : Val} (hv : raiseMarker v = none) :
+    guardOp f h sv v = f h sv v := by simp [guardOp, hv]
+
+/-- over items none of which raises, the loop's own check is invisible -/
+theorem refReduce_guard_fold (f : OpFn) (h0 : Heap) :
+    ∀ (items : List Val) (sv : SV), NM items →
+      refReduce (foldStep (guardOp f) h0) items sv = refReduce (foldStep f h0) items sv := by
+  intro items
+  induction items with
+  | nil => intro _ _; rfl
+  | cons v vs ih =>
+    intro sv hn
+    have hv := hn v List.mem_cons_self
+    have hs : foldStep (guardOp f) h0 sv v = foldStep f h0 sv v := by simp [foldStep, guardOp_nm hv]
+    simp only [refReduce, hs]
+    cases foldStep f h0 sv v with
+    | error e => rfl
+    | ok sv' => exact ih sv' (fun x hx => hn x (List.mem_cons_of_mem _ hx))
+
+theorem refReduce_guard_merge (f : OpFn) (h0 : Heap) :
+    ∀ (items : List Val) (sv : SV), NM items →
+      refReduce (mergeStep (guardOp f) h0) items sv = refReduce (mergeStep f h0) items sv := by
+  intro items
+  induction items with
+  | nil => intro _ _; rfl
+  | cons v vs ih =>
+    intro sv hn
+    have hv := hn v List.mem_cons_self
+    have hs : mergeStep (guardOp f) h0 sv v = mergeStep f h0 sv v := by simp [mergeStep, guardOp_nm hv]
+    simp only [refReduce, hs]
+    cases mergeStep f h0 sv v with
+    | error e => rfl
+    | ok sv' => exact ih sv' (fun x hx => hn x (List.mem_cons_of_mem _ hx))
+
+theorem strChars_nm (s : String) : NM (strChars s) := by
+  intro x hx
+  simp only [strChars, List.mem_map] at hx
+  obtain ⟨c, _, rfl⟩ := hx
+  rfl
+
+theorem noMarkers_get {h0 : Heap} (hm : noMarkers h0 = true) {a : Nat} {o : Obj} (ho : h0[a]? = some o) :
+    NM (cellVals o) := by
+  unfold noMarkers at hm
+  rw [List.all_eq_true] at hm
+  have := hm o (List.mem_of_getElem? ho)
+  simp only [List.all_eq_true, Option.isNone_iff_eq_none] at this
+  exact this
+
+theorem rawIterBase_nm {h0 : Heap} (hm : noMarkers h0 = true) {v : Val} (hv : raiseMarker v = none)
+    {xs : List Val} (hr : rawIterBase h0 v = some xs) : NM xs := by
+  cases v with
+  | str s => simp only [rawIterBase, Option.some.injEq] at hr; subst hr; exact strChars_nm s
+  | ref a =>
+    simp only [rawIterBase] at hr
+    split at hr
+    all_goals (try (simp at hr; done))
+    all_goals
+      rename_i heq
+      have hcl := noMarkers_get hm heq
+      simp only [Option.some.injEq] at hr
+      subst hr
+      intro x hx
+      apply hcl
+      simp [cellVals]
+      try exact hx
+    · obtain ⟨p, hp, rfl⟩ := List.mem_map.mp hx
+      exact ⟨p.1, p.2, hp, Or.inl rfl⟩
+  | sent n =>
+    simp only [rawIterBase, hv] at hr
+    simp at hr
+  | _ => simp [rawIterBase] at hr
+
+theorem rawIter1_nm {h0 : Heap} (hm : noMarkers h0 = true) {v : Val} (hv : raiseMarker v = none)
+    {xs : List Val} (hr : rawIter1 h0 v = some xs) : NM xs := by
+  cases v with
+  | ref a =>
+    simp only [rawIter1] at hr
+    cases ho : h0[a]? with
+    | none => rw [ho] at hr; exact rawIterBase_nm hm rfl hr
+    | some o =>
+      rw [ho] at hr
+      cases o with
+      | inst cl as =>
+        simp only at hr
+        split at hr
+        · cases hat : attrOf as "names" with
+          | none => simp [hat] at hr
+          | some w =>
+            simp only [hat] at hr
+            exact rawIterBase_nm hm (noMarkers_get hm ho w (by simpa [cellVals] using attrOf_mem hat)) hr
+        · split at hr
+          · injection hr with hr; subst hr; intro x hx; cases hx
+          · cases hr
+      | _ => exact rawIterBase_nm hm rfl hr
+  | _ => simp only [rawIter1] at hr; exact rawIterBase_nm hm hv hr
+
+theorem joinWith_nm {h0 : Heap} (hm : noMarkers h0 = true) {xs ys : List Val} (hx : NM xs)
+    (hj : joinWith (rawIter1 h0) xs = some ys) : NM ys := by
+  induction xs generalizing ys with
+  | nil => simp [joinWith] at hj; subst hj; intro x hx; cases hx
+  | cons x r ih =>
+    simp only [joinWith] at hj
+    split at hj
+    · rename_i a b ha hb
+      simp only [Option.some.injEq] at hj; subst hj
+      intro y hy
+      rcases List.mem_append.mp hy with h1 | h1
+      · exact rawIter1_nm hm (hx x List.mem_cons_self) ha y h1
+      · exact ih (fun z hz => hx z (List.mem_cons_of_mem _ hz)) hb y h1
+    · simp at hj
+
+theorem joinN_nm {h0 : Heap} (hm : noMarkers h0 = true) :
+    ∀ (n : Nat) (xs ys : List Val), NM xs → joinN h0 n xs = some ys → NM ys := by
+  intro n
+  induction n with
+  | zero => intro xs ys hx h; simp [joinN] at h; subst h; exact hx
+  | succ n ih =>
+    intro xs ys hx h
+    simp only [joinN] at h
+    cases hj : joinWith (rawIter1 h0) xs with
+    | none => simp [hj] at h
+    | some zs => simp only [hj] at h; exact ih zs ys (joinWith_nm hm hx hj) h
+
+/-- on a heap without raising generators, consuming an input iterable is `iter` and nothing else -/
+theorem iterStrict_nm {h0 : Heap} (hc : closedHeap h0 = true) (hm : noMarkers h0 = true) {v : Val}
+    (hv : Val.inb h0.length v = true) (hvm : raiseMarker v = none) :
+    iterStrict h0 v = match rawIter h0 v with
+      | some ys => .ok ys
+      | none => .error typeErr := by
+  unfold iterStrict
+  cases hr : rawIter h0 v with
+  | none => rfl
+  | some ys =>
+    have : NM ys := by
+      rw [rawIter_ext (Ctx.base hc) hv] at hr
+      exact rawIter1_nm hm hvm hr
+    simp only [(firstRaise_none_iff ys).mpr this]
+
+theorem allInts_nm {items : List Val} {is : List Int} (h : allInts items = some is) : NM items := by
+  induction items generalizing is with
+  | nil => intro x hx; cases hx
+  | cons v vs ih =>
+    simp only [allInts] at h
+    cases hv : asInt v with
+    | none => simp [hv] at h
+    | some i =>
+      cases hvs : allInts vs with
+      | none => simp [hv, hvs] at h
+      | some is' =>
+        intro x hx
+        rcases List.mem_cons.mp hx with rfl | hx
+        · cases x <;> simp [asInt] at hv <;> rfl
+        · exact ih hvs x hx
+
+theorem dictsOf_nm {h0 : Heap} {items : List Val} {ds : List (List (Val × Val))}
+    (h : dictsOf h0 items = some ds) : NM items := by
+  induction items generalizing ds with
+  | nil => intro x hx; cases hx
+  | cons v vs ih =>
+    cases v with
+    | ref a =>
+      simp only [dictsOf] at h
+      cases ho : h0[a]? with
+      | none => simp [ho] at h
+      | some o =>
+        cases hds : dictsOf h0 vs with
+        | none => cases o <;> simp [ho, hds] at h
+        | some ds' =>
+          intro x hx
+          rcases List.mem_cons.mp hx with rfl | hx
+          · rfl
+          · exact ih hds x hx
+    | _ => simp [dictsOf] at h
+
 theorem reduce_iadd_int (h0 : Heap) :
     ∀ (items : List Val) (is : List Int) (a : Int), allInts items = some is →
       refReduce (foldStep (pyOp .iadd) h0) items (.imm (.int a)) = .ok (.imm (.int (a + is.sum))) := by
@@ -1393,29 +1768,31 @@ theorem reduce_iadd_int (h0 : Heap) :
           cases v <;> simp [asInt] at hv <;> subst hv <;> rfl
         simp only [refReduce, this, ih is' (a + i) hvs, List.sum_cons, Int.add_assoc]
 
-theorem reduce_iadd_list (h0 : Heap) :
-    ∀ (items : List Val) (acc : List Val),
+theorem reduce_iadd_list (h0 : Heap) (hc : closedHeap h0 = true) (hm : noMarkers h0 = true) :
+    ∀ (items : List Val) (acc : List Val), (∀ x ∈ items, Val.inb h0.length x = true) → NM items →
       refReduce (foldStep (pyOp .iadd) h0) items (.cell (.list "list" acc)) =
         match joinWith (rawIter h0) items with
         | some ys => .ok (.cell (.list "list" (acc ++ ys)))
         | none => .error typeErr := by
   intro items
   induction items with
-  | nil => intro acc; simp [refReduce, joinWith]
+  | nil => intro acc _ _; simp [refReduce, joinWith]
   | cons v vs ih =>
-    intro acc
+    intro acc hin hni
     have hstep : foldStep (pyOp .iadd) h0 (.cell (.list "list" acc)) v =
         match rawIter h0 v with
         | some ys => .ok (.cell (.list "list" (acc ++ ys)))
         | none => .error typeErr := by
       have : ("list" == "Acc") = false := by decide
-      simp only [foldStep, pyOp, pyAdd, this, if_true, Bool.false_eq_true, if_false]
+      simp only [foldStep, pyOp, pyAdd, this, if_true, Bool.false_eq_true, if_false,
+        iterStrict_nm hc hm (hin v List.mem_cons_self) (hni v List.mem_cons_self)]
       cases rawIter h0 v <;> rfl
     simp only [refReduce, hstep, joinWith]
     cases hr : rawIter h0 v with
     | none => rfl
     | some ys =>
-      simp only [ih (acc ++ ys)]
+      simp only [ih (acc ++ ys) (fun x hx => hin x (List.mem_cons_of_mem _ hx))
+        (fun x hx => hni x (List.mem_cons_of_mem _ hx))]
       cases joinWith (rawIter h0) vs with
       | none => rfl
       | some zs => simp [List.append_assoc]
@@ -1690,11 +2067,19 @@ theorem evalAll_observe {h0 : Heap} (hc : closedHeap h0 = true) (env : Env)
    observeAll_spec hc env hf targets ht h c [] (by simp) _ (Frame.rfl' (Nat.le_refl _))⟩
 
 /-- the hypotheses on a program: its sub-spec keys and `init` operands are input values, `init`
-    allocates, a copying factory copies a list / tuple / dict -/
+    allocates, a copying factory copies a list / tuple / dict, `op` writes to its accumulator only,
+    and the constructor of the spec class accepted its arguments (`runHistory` deals with the rest) -/
 structure ProgOK (h0 : Heap) (p : Prog) : Prop where
   inb : ∀ k ∈ progVals p, Val.inb h0.length k = true
   allocates : p.initAllocates = true
   wf : p.initWF h0 = true
+  lawful : p.opLawful = true
+  ctor : ctorErr p = none
+
+theorem wf_of_refused {h0 : Heap} {i : Init} (h : i.wfOrRefused h0 = true) :
+    i = .notCallable ∨ i.wf h0 = true := by
+  simp only [Init.wfOrRefused, Bool.or_eq_true, beq_iff_eq] at h
+  exact h
 
 /-- the table-level evaluator of a program whose spec object is built (`merge`: see `runProg`) -/
 def progEval (p : Prog) : Env → Heap → Val → Except Err Val × Heap :=
@@ -1706,6 +2091,7 @@ def progEval (p : Prog) : Env → Heap → Val → Except Err Val × Heap :=
   | .merge sub i _ => fun e => glomit e ⟨.merge, sub, i, .iadd, false⟩      -- not used
   | .flattenFn sub i l => fun e => flattenFn e sub i l
   | .mergeFn sub i op => fun e => mergeFn e sub i op
+  | .oddCall c => fun _ => oddCall c
 
 def Prog.isMerge : Prog → Bool
   | .merge .. => true
@@ -1721,34 +2107,75 @@ theorem progEval_ok {h0 : Heap} {p : Prog} (hp : ProgOK h0 p) (hm : p.isMerge = 
   cases p with
   | fold sub i op =>
     have hs : ∀ k ∈ sub, Val.inb h0.length k = true := fun k hk => hp.inb k (by simp [progVals, hk])
-    have hi : InitOK h0 i := ⟨hp.allocates, hp.wf, fun v hv => hp.inb v (by simp [progVals, hv])⟩
-    exact fun h t c ht' => glomit_spec c env hH hcatch (mkFold sub i op) hi hs ht'
+    have hct := hp.ctor
+    simp only [ctorErr] at hct
+    have hnc : i ≠ .notCallable := by intro hn; subst hn; simp at hct
+    have hop : op ≠ .pokeElem := by have := hp.lawful; simpa [Prog.opLawful] using this
+    have hi : InitOK h0 i := ⟨hp.allocates, (wf_of_refused hp.wf).resolve_left hnc,
+      fun v hv => hp.inb v (by simp [progVals, hv])⟩
+    exact fun h t c ht' => glomit_spec c env hH hcatch (mkFold sub i op) hi hop hs ht'
   | sum sub i =>
     have hs : ∀ k ∈ sub, Val.inb h0.length k = true := fun k hk => hp.inb k (by simp [progVals, hk])
-    have hi : InitOK h0 i := ⟨hp.allocates, hp.wf, fun v hv => hp.inb v (by simp [progVals, hv])⟩
-    exact fun h t c ht' => glomit_spec c env hH hcatch (mkSum sub i) hi hs ht'
+    have hct := hp.ctor
+    simp only [ctorErr] at hct
+    have hnc : i ≠ .notCallable := by intro hn; subst hn; simp at hct
+    have hi : InitOK h0 i := ⟨hp.allocates, (wf_of_refused hp.wf).resolve_left hnc,
+      fun v hv => hp.inb v (by simp [progVals, hv])⟩
+    exact fun h t c ht' => glomit_spec c env hH hcatch (mkSum sub i) hi (by simp [mkSum]) hs ht'
   | count =>
-    exact fun h t c ht' => glomit_spec c env hH hcatch mkCount (InitOK.plain h0 rfl rfl rfl) (by simp [mkCount]) ht'
+    exact fun h t c ht' => glomit_spec c env hH hcatch mkCount (InitOK.plain h0 rfl rfl rfl) (by simp [mkCount])
+      (by simp [mkCount]) ht'
   | flatten sub i =>
     have hs : ∀ k ∈ (mkFlatten sub i).sub, Val.inb h0.length k = true := by
       intro k hk; apply hp.inb; cases i <;> simp [progVals, mkFlatten] at hk ⊢ <;> exact Or.inl hk
     have hi : InitArgOK h0 i := by
       cases i with
       | lazy => trivial
-      | init j => exact ⟨hp.allocates, hp.wf, fun v hv => hp.inb v (by simp [progVals, InitArg.vals, hv])⟩
-    exact fun h t c ht' => glomit_spec c env hH hcatch (mkFlatten sub i) (hi.mk' sub) hs ht'
+      | init j =>
+        have hct := hp.ctor
+        simp only [ctorErr] at hct
+        have hnc : j ≠ .notCallable := by intro hn; subst hn; simp at hct
+        have hw : j.wfOrRefused h0 = true := hp.wf
+        exact ⟨hp.allocates, (wf_of_refused hw).resolve_left hnc,
+          fun v hv => hp.inb v (by simp [progVals, InitArg.vals, hv])⟩
+    exact fun h t c ht' => glomit_spec c env hH hcatch (mkFlatten sub i) (hi.mk' sub)
+      (by cases i <;> simp [mkFlatten]) hs ht'
   | flattenFn sub i l =>
     have hs : ∀ k ∈ sub, Val.inb h0.length k = true := fun k hk => hp.inb k (by simp [progVals, hk])
-    have hi : InitArgOK h0 i := by
+    have hi : i = .init .notCallable ∨ InitArgOK h0 i := by
       cases i with
-      | lazy => trivial
-      | init j => exact ⟨hp.allocates, hp.wf, fun v hv => hp.inb v (by simp [progVals, InitArg.vals, hv])⟩
+      | lazy => exact Or.inr trivial
+      | init j =>
+        have hw : j.wfOrRefused h0 = true := hp.wf
+        rcases wf_of_refused hw with h1 | h1
+        · exact Or.inl (by rw [h1])
+        · exact Or.inr ⟨hp.allocates, h1, fun v hv => hp.inb v (by simp [progVals, InitArg.vals, hv])⟩
     exact fun h t c ht' => flattenFn_spec c env hH (fun hl => hchain (by simp [Prog.usesChain, hl])) hcatch sub i hi hs ht'
   | mergeFn sub i op =>
     have hs : ∀ k ∈ sub, Val.inb h0.length k = true := fun k hk => hp.inb k (by simp [progVals, hk])
-    have hi : InitOK h0 i := ⟨hp.allocates, hp.wf, fun v hv => hp.inb v (by simp [progVals, hv])⟩
+    have hi : i = .notCallable ∨ InitOK h0 i := by
+      rcases wf_of_refused hp.wf with h1 | h1
+      · exact Or.inl h1
+      · exact Or.inr ⟨hp.allocates, h1, fun v hv => hp.inb v (by simp [progVals, hv])⟩
     exact fun h t c ht' => mergeFn_spec c env hH hcatch sub i op hi hs ht'
   | merge sub i op => cases hm
+  | oddCall oc =>
+    intro h t c ht'
+    cases oc with
+    | extraKw => exact ⟨Frame.rfl' (Nat.le_refl _), rfl⟩
+    | levelsNone => exact ⟨Frame.rfl' (Nat.le_refl _), rfl⟩
+    | levelsFloat bits =>
+      simp only [progEval, oddCall, refProg]
+      cases floatOfHex bits with
+      | none => exact ⟨Frame.rfl' (Nat.le_refl _), rfl⟩
+      | some x =>
+        simp only
+        by_cases hz : (x == 0) = true
+        · simp only [hz, if_true]; exact ⟨Frame.rfl' (Nat.le_refl _), rfl, ht'⟩
+        · simp only [hz, Bool.false_eq_true, if_false]
+          by_cases hn : x < 0
+          · simp only [hn, if_true]; exact ⟨Frame.rfl' (Nat.le_refl _), rfl⟩
+          · simp only [hn, if_false]; exact ⟨Frame.rfl' (Nat.le_refl _), rfl⟩
 
 /-- **the whole run under one handler table**: nothing that existed changes, and an observer sees
     exactly the reference -/
@@ -1769,8 +2196,11 @@ theorem runProg_spec (env : Env) (hwf : WF env = true) (h0 : Heap) (hc : closedH
   · cases p with
     | merge sub i op =>
       have hs : ∀ k ∈ sub, Val.inb h0.length k = true := fun k hk => hp.inb k (by simp [progVals, hk])
-      have hi : InitOK h0 i := ⟨hp.allocates, hp.wf, fun v hv => hp.inb v (by simp [progVals, hv])⟩
-      have hmm := mkMerge_spec c0 sub i op hi
+      have hi' : i = .notCallable ∨ InitOK h0 i := by
+        rcases wf_of_refused hp.wf with h1 | h1
+        · exact Or.inl h1
+        · exact Or.inr ⟨hp.allocates, h1, fun v hv => hp.inb v (by simp [progVals, hv])⟩
+      have hmm := mkMerge_spec c0 sub i op hi'
       simp only [runProg, expectR, refProg, refMerge]
       rcases hmk : mkMerge sub i op h0 with ⟨r, h1⟩
       rw [hmk] at hmm
@@ -1788,8 +2218,10 @@ theorem runProg_spec (env : Env) (hwf : WF env = true) (h0 : Heap) (hc : closedH
         rw [hro] at hmm
         simp only [hmm.2]
         have c1 : Ctx h0 h1 := ⟨hc, hmm.1⟩
+        have hok := refMergeOp_ok hro
+        have hi : InitOK h0 i := hi'.resolve_left hok.1
         have := evalAll_observe hc env (ref := refSpec env h0 ⟨.merge, sub, i, o, false⟩)
-          (fun h t c ht' => glomit_spec c env hH hcatch ⟨.merge, sub, i, o, false⟩ hi hs ht') targets ht h1 c1
+          (fun h t c ht' => glomit_spec c env hH hcatch ⟨.merge, sub, i, o, false⟩ hi hok.2 hs ht') targets ht h1 c1
         have hexp : List.map (expectR env h0 (Prog.merge sub i op)) targets =
             targets.map (fun t => showRef env h0 (refSpec env h0 ⟨.merge, sub, i, o, false⟩ t)) :=
           List.map_congr_left (fun t _ => by simp [expectR, refProg, refMerge, hro])
@@ -1827,12 +2259,40 @@ theorem refSpec_not_same (env : Env) (h0 : Heap) (s : FoldSpec) (t v : Val) :
       · simp
       · exact withInit_not_same _ _ _ v
 
+/-! ### one-step unfoldings (definitional; not counted as property theorems) -/
+
+theorem sum_list_eq_flatten (env : Env) (sub : List Val) (h : Heap) (target : Val) :
+    glomit env (mkSum sub .list) h target = glomit env (mkFlatten sub (.init .list)) h target := by
+  simp [glomit, mkSum, mkFlatten, runFold]
+
+theorem flattenFn_zero (env : Env) (sub : List Val) (init : InitArg) (h : Heap) (target : Val) :
+    flattenFn env sub init 0 h target = (.ok target, h) := rfl
+
+theorem flattenFn_negative (env : Env) (sub : List Val) (init : InitArg) (l : Int) (hl : l < 0)
+    (h : Heap) (target : Val) :
+    flattenFn env sub init l h target = (.error (.raised "ValueError"), h) := by
+  unfold flattenFn
+  have : (l == 0) = false := by simp only [beq_eq_false_iff_ne, ne_eq]; omega
+  simp [this, hl]
+
+theorem glomitR_subspec_error (H : Hier) (env : Env) (s : FoldSpec) (r : Reg) (h : Heap) (target : Val)
+    (e : Err) (he : evalSub h s.sub target = .error e) :
+    glomitR H env s r h target = ((.error e, h), r) := by
+  simp [glomitR, he]
+
+theorem mkMerge_calls_init (sub : List Val) (h : Heap) :
+    (mkMerge sub .dict .none h).2 = h ++ [.dict "dict" []] ∧
+    (mkMerge sub .dict .iadd h).2 = h := by
+  constructor
+  · simp [mkMerge, callInit, materialise, Val.clsName, methodOf, Obj.cls]
+  · rfl
+
 /-! ### the registry: the memo of `get_handler` is invisible -/
 
 /-- every memo entry is what a first lookup on the current tables would answer (and is a callable:
     lookups with `raise_exc=True` never store `False`) -/
 def CacheOK (H : Hier) (r : Reg) : Prop :=
-  ∀ t op h, C13.odGet (t, op) r.cache = some h → h ≠ none ∧ C13.resolve H r op t = some h
+  ∀ t op h, C13.odGet (t, op) r.cache = some h → C13.resolve H r op t = some h
 
 theorem CacheOK.of_empty {H : Hier} {r : Reg} (h : r.cache = []) : CacheOK H r := by
   intro t op x hx
@@ -1851,54 +2311,57 @@ theorem pureLk_congr {H : Hier} {r r' : Reg} (h : C13.EqC r r') : pureLk H r = p
 theorem envOf_congr {H : Hier} {r r' : Reg} (h : C13.EqC r r') (env : Env) : envOf H env r = envOf H env r' := by
   simp only [envOf, pureLk_congr h]
 
-/-- **one `get_handler('iterate', obj)` call through the memo** answers what the tables say,
-    leaves the tables alone and keeps the memo consistent -/
-theorem getHandler_memo {H : Hier} {r : Reg} (hc : CacheOK H r) (cls : String) :
-    lkAnswer (C13.getHandler H r "iterate" cls true).2 = pureLk H r cls ∧
-    C13.EqC (C13.getHandler H r "iterate" cls true).1 r ∧
-    CacheOK H (C13.getHandler H r "iterate" cls true).1 := by
-  refine ⟨?_, C13.getHandler_eqC H r "iterate" cls true, ?_⟩
-  · unfold C13.getHandler pureLk
-    cases hg : C13.odGet (cls, "iterate") r.cache with
+theorem EqC.refl' (r : Reg) : C13.EqC r r := ⟨rfl, rfl, rfl⟩
+
+theorem cacheOK_store {H : Hier} {r : Reg} (hc : CacheOK H r) {cls op : String} {h : Option String}
+    (hr : C13.resolve H r op cls = some h) :
+    CacheOK H { r with cache := C13.odSet (cls, op) h r.cache } := by
+  intro t op' x hx
+  simp only at hx
+  rw [C13.odGet_odSet] at hx
+  rw [C13.resolve_cache_irrel]
+  by_cases hk : (t, op') = (cls, op)
+  · simp only [hk, beq_self_eq_true, if_true, Option.some.injEq] at hx
+    subst hx
+    injection hk with h1 h2
+    subst h1; subst h2
+    exact hr
+  · have : ((t, op') == (cls, op)) = false := by simpa using hk
+    simp only [this, Bool.false_eq_true, if_false] at hx
+    exact hc t op' x hx
+
+/-- **one `get_handler('iterate', obj)` call through the memo** (raising or not) leaves the tables
+    alone and keeps the memo consistent — a remembered `False` included; a RAISING call answers
+    what the tables say, whatever was remembered -/
+theorem getHandler15_memo {H : Hier} {r : Reg} (hc : CacheOK H r) (cls : String) (re : Bool) :
+    (re = true → lkAnswer (getHandler15 H r "iterate" cls re).2 = pureLk H r cls) ∧
+    C13.EqC (getHandler15 H r "iterate" cls re).1 r ∧
+    CacheOK H (getHandler15 H r "iterate" cls re).1 := by
+  unfold getHandler15 C13.getHandler pureLk
+  cases hg : C13.odGet (cls, "iterate") r.cache with
+  | some h =>
+    have hr := hc cls "iterate" h hg
+    cases h with
+    | none =>
+      cases re with
+      | true => simp only [hr, if_true]; exact ⟨fun _ => rfl, EqC.refl' r, hc⟩
+      | false => simp only [hr]; exact ⟨(fun h => by cases h), EqC.refl' r, hc⟩
+    | some hn => simp only [hr]; exact ⟨fun _ => rfl, EqC.refl' r, hc⟩
+  | none =>
+    simp only
+    cases hr : C13.resolve H r "iterate" cls with
+    | none => exact ⟨fun _ => rfl, EqC.refl' r, hc⟩
     | some h =>
-      obtain ⟨hn, hr⟩ := hc cls "iterate" h hg
-      simp only [hr]
       cases h with
-      | none => exact absurd rfl hn
-      | some hn' => rfl
-    | none =>
-      simp only
-      cases hr : C13.resolve H r "iterate" cls with
-      | none => rfl
-      | some h =>
-        cases h with
-        | none => rfl
-        | some hn' => rfl
-  · unfold C13.getHandler
-    cases hg : C13.odGet (cls, "iterate") r.cache with
-    | some h => exact hc
-    | none =>
-      simp only
-      cases hr : C13.resolve H r "iterate" cls with
-      | none => exact hc
-      | some h =>
-        cases h with
-        | none => exact hc
-        | some hn' =>
-          simp only [Option.isNone_some, Bool.false_and, Bool.false_eq_true, if_false]
-          intro t op x hx
-          simp only at hx
-          rw [C13.odGet_odSet] at hx
-          rw [C13.resolve_cache_irrel]
-          by_cases hk : (t, op) = (cls, "iterate")
-          · simp only [hk, beq_self_eq_true, if_true, Option.some.injEq] at hx
-            subst hx
-            injection hk with h1 h2
-            subst h1; subst h2
-            exact ⟨by simp, hr⟩
-          · have : ((t, op) == (cls, "iterate")) = false := by simpa using hk
-            simp only [this, Bool.false_eq_true, if_false] at hx
-            exact hc t op x hx
+      | none =>
+        cases re with
+        | true => simp only [Option.isNone_none, Bool.and_self, if_true]; exact ⟨fun _ => rfl, EqC.refl' r, hc⟩
+        | false =>
+          simp only [Option.isNone_none, Bool.and_false, Bool.false_eq_true, if_false]
+          exact ⟨(fun h => by cases h), ⟨rfl, rfl, rfl⟩, cacheOK_store hc hr⟩
+      | some hn =>
+        simp only [Option.isNone_some, Bool.false_and, Bool.false_eq_true, if_false]
+        exact ⟨fun _ => rfl, ⟨rfl, rfl, rfl⟩, cacheOK_store hc hr⟩
 
 /-- the handler a `register(t, op=hd, …)` call names is what the tables answer for `t` right after
     (exact or not, whatever was registered or looked up before) -/
@@ -1951,6 +2414,7 @@ theorem foldl_regAfter_congr (H : Hier) :
     cases e with
     | eval t => exact ih h
     | register c ex kw => exact ih (h.register H c ex kw)
+    | probe cl => exact ih h
 
 theorem applyHandler_envOf (H : Hier) (env : Env) (r : Reg) (ans : Except IterErr String) (h : Heap) (v : Val) :
     applyHandler (envOf H env r) ans h v = applyHandler env ans h v := rfl
@@ -1965,12 +2429,10 @@ def Bridge (H : Hier) (env : Env) (fR : Reg → Heap → Val → (Except Err Val
 theorem targetIterR_eq {H : Hier} (env : Env) {r : Reg} (hc : CacheOK H r) (h : Heap) (v : Val) :
     (targetIterR H env r h v).1 = targetIter (envOf H env r) h v ∧
     C13.EqC (targetIterR H env r h v).2 r ∧ CacheOK H (targetIterR H env r h v).2 := by
-  obtain ⟨h1, h2, h3⟩ := getHandler_memo hc (v.clsName h)
+  obtain ⟨h1, h2, h3⟩ := getHandler15_memo hc (v.clsName h) true
   refine ⟨?_, h2, h3⟩
-  simp only [targetIterR, targetIter, h1, applyHandler_envOf]
+  simp only [targetIterR, targetIter, h1 rfl, applyHandler_envOf]
   rfl
-
-theorem EqC.refl' (r : Reg) : C13.EqC r r := ⟨rfl, rfl, rfl⟩
 
 /-- **the memo is invisible to one evaluation** -/
 theorem glomitR_bridge (H : Hier) (env : Env) (s : FoldSpec) :
@@ -2024,9 +2486,12 @@ theorem flattenFnR_bridge (H : Hier) (env : Env) (sub : List Val) (init : InitAr
     by_cases hneg : l < 0
     · rw [if_pos hneg, if_pos hneg]; exact ⟨rfl, EqC.refl' r, hc⟩
     · rw [if_neg hneg, if_neg hneg]
-      cases he : evalSub h sub t with
-      | error e => exact ⟨rfl, EqC.refl' r, hc⟩
-      | ok w => exact chainEvalR_bridge H env _ r h w hc
+      by_cases hnc : (init == InitArg.init Init.notCallable) = true
+      · rw [if_pos hnc, if_pos hnc]; exact ⟨rfl, EqC.refl' r, hc⟩
+      · rw [if_neg hnc, if_neg hnc]
+        cases he : evalSub h sub t with
+        | error e => exact ⟨rfl, EqC.refl' r, hc⟩
+        | ok w => exact chainEvalR_bridge H env _ r h w hc
 
 theorem mergeFnR_bridge (H : Hier) (env : Env) (sub : List Val) (init : Init) (op : MergeOpArg) :
     Bridge H env (mergeFnR H env sub init op) (fun e => mergeFn e sub init op) := by
@@ -2045,6 +2510,7 @@ def GoodAlong (H : Hier) (env : Env) (good : Env → Prop) : List Event → Reg 
   | [], _ => True
   | .eval _ :: es, r => good (envOf H env r) ∧ GoodAlong H env good es r
   | .register c e kw :: es, r => GoodAlong H env good es (C13.register H r c e kw)
+  | .probe _ :: es, r => GoodAlong H env good es r
 
 theorem GoodAlong_congr {H : Hier} {env : Env} {good : Env → Prop} :
     ∀ (es : List Event) {r r' : Reg}, C13.EqC r r' → GoodAlong H env good es r → GoodAlong H env good es r' := by
@@ -2058,12 +2524,14 @@ theorem GoodAlong_congr {H : Hier} {env : Env} {good : Env → Prop} :
     | register c ex kw =>
       simp only [GoodAlong] at hg ⊢
       rw [← C13.register_eq_of_eqC hq]; exact hg
+    | probe cl => exact ih hq hg
 
 /-- what an observer is expected to see of a history, evaluation by evaluation -/
 def expectList (H : Hier) (env : Env) (h0 : Heap) (ref : Env → Val → RefRes) : List Event → Reg → List R
   | [], _ => []
   | .eval t :: es, r => showRef env h0 (ref (envOf H env r) t) :: expectList H env h0 ref es r
   | .register c e kw :: es, r => expectList H env h0 ref es (C13.register H r c e kw)
+  | .probe _ :: es, r => expectList H env h0 ref es r
 
 theorem expectList_congr {H : Hier} {env : Env} {h0 : Heap} {ref : Env → Val → RefRes} :
     ∀ (es : List Event) {r r' : Reg}, C13.EqC r r' →
@@ -2076,6 +2544,7 @@ theorem expectList_congr {H : Hier} {env : Env} {h0 : Heap} {ref : Env → Val 
     cases e with
     | eval t => simp only [expectList, envOf_congr hq env, ih hq]
     | register c ex kw => simp only [expectList, C13.register_eq_of_eqC hq]
+    | probe cl => simp only [expectList, ih hq]
 
 theorem mem_targets_cons_eval {t x : Val} {es : List Event} :
     x ∈ Event.targets (.eval t :: es) ↔ x = t ∨ x ∈ Event.targets es := by
@@ -2103,6 +2572,12 @@ theorem evalEvents_spec {h0 : Heap} (hc : closedHeap h0 = true) (H : Hier) (env 
     | register cl ex kw =>
       simp only [evalEvents, expectList]
       exact ih (fun t htm => ht t (by simpa [Event.targets] using htm)) _ h (register_cacheOK H r cl ex kw) c hg
+    | probe cl =>
+      obtain ⟨_, p2, p3⟩ := getHandler15_memo hcr cl false
+      simp only [evalEvents, expectList]
+      rw [← expectList_congr es p2]
+      exact ih (fun t htm => ht t (by simpa [Event.targets] using htm)) _ h p3 c
+        (GoodAlong_congr es ⟨p2.1.symm, p2.2.1.symm, p2.2.2.symm⟩ hg)
     | eval t =>
       have htin : Val.inb h0.length t = true := ht t (mem_targets_cons_eval.mpr (Or.inl rfl))
       have hts : ∀ x ∈ Event.targets es, Val.inb h0.length x = true :=
@@ -2167,6 +2642,12 @@ theorem evalEvents_reg {H : Hier} {env : Env}
     intro r h hc
     cases e with
     | register c ex kw => exact ih _ h (register_cacheOK H r c ex kw)
+    | probe cl =>
+      obtain ⟨_, p2, p3⟩ := getHandler15_memo hc cl false
+      have := ih (getHandler15 H r "iterate" cl false).1 h p3
+      simp only [evalEvents, List.foldl_cons, regAfter]
+      have hq := foldl_regAfter_congr H es p2
+      exact ⟨⟨this.1.1.trans hq.1, this.1.2.1.trans hq.2.1, this.1.2.2.trans hq.2.2⟩, this.2⟩
     | eval t =>
       obtain ⟨_, b2, b3⟩ := hb r h t hc
       have := ih (fR r h t).2 (fR r h t).1.2 b3
@@ -2189,6 +2670,7 @@ theorem expectAll_eq (H : Hier) (env : Env) (h0 : Heap) (p : Prog) :
     cases e with
     | eval t => simp only [expectAll, expectList, ih, expectR, showRef_envOf]
     | register c ex kw => simp only [expectAll, expectList, ih]
+    | probe cl => simp only [expectAll, expectList, ih]
 
 /-- the R-level evaluator a program runs on each target of a history -/
 def progEvalR (H : Hier) (env : Env) (p : Prog) : Reg → Heap → Val → (Except Err Val × Heap) × Reg :=
@@ -2200,6 +2682,7 @@ def progEvalR (H : Hier) (env : Env) (p : Prog) : Reg → Heap → Val → (Exce
   | .merge sub i _ => glomitR H env ⟨.merge, sub, i, .iadd, false⟩      -- not used
   | .flattenFn sub i l => flattenFnR H env sub i l
   | .mergeFn sub i op => mergeFnR H env sub i op
+  | .oddCall c => fun r h t => (oddCall c h t, r)
 
 theorem progEvalR_bridge (H : Hier) (env : Env) (p : Prog) : Bridge H env (progEvalR H env p) (progEval p) := by
   cases p with
@@ -2210,6 +2693,7 @@ theorem progEvalR_bridge (H : Hier) (env : Env) (p : Prog) : Bridge H env (progE
   | merge sub i op => exact glomitR_bridge H env _
   | flattenFn sub i l => exact flattenFnR_bridge H env sub i l
   | mergeFn sub i op => exact mergeFnR_bridge H env sub i op
+  | oddCall c => exact fun r h t hc => ⟨rfl, EqC.refl' r, hc⟩
 
 theorem runProgR_eq (H : Hier) (env : Env) (p : Prog) (hm : p.isMerge = false) (events : List Event)
     (r : Reg) (h : Heap) : runProgR H env p events r h = evalEvents H (progEvalR H env p) events r h := by
@@ -2250,6 +2734,11 @@ theorem histOK_of_bool {H : Hier} {env : Env} {h0 : Heap} {p : Prog} (hH : Handl
       rcases hh with hh | hh
       · exact Or.inl hh
       · exact Or.inr hh
+    | probe cl =>
+      apply ih
+      rcases hh with hh | hh
+      · exact Or.inl hh
+      · exact Or.inr hh
 
 /-- **the whole history against the registry**: nothing that existed changes, and an observer
     sees, for every evaluation, the reference reduction over the iteration the registry's tables
@@ -2274,8 +2763,11 @@ theorem runProgR_spec (H : Hier) (env : Env) (hconv : WFConv env = true) (h0 : H
   · cases p with
     | merge sub i op =>
       have hs : ∀ k ∈ sub, Val.inb h0.length k = true := fun k hk => hp.inb k (by simp [progVals, hk])
-      have hi : InitOK h0 i := ⟨hp.allocates, hp.wf, fun v hv => hp.inb v (by simp [progVals, hv])⟩
-      have hmm := mkMerge_spec c0 sub i op hi
+      have hi' : i = .notCallable ∨ InitOK h0 i := by
+        rcases wf_of_refused hp.wf with h1 | h1
+        · exact Or.inl h1
+        · exact Or.inr ⟨hp.allocates, h1, fun v hv => hp.inb v (by simp [progVals, hv])⟩
+      have hmm := mkMerge_spec c0 sub i op hi'
       simp only [runProgR]
       rcases hmk : mkMerge sub i op h0 with ⟨res, h1⟩
       rw [hmk] at hmm
@@ -2297,16 +2789,19 @@ theorem runProgR_spec (H : Hier) (env : Env) (hconv : WFConv env = true) (h0 : H
             cases ev with
             | eval t => simp [expectList, Event.targets, ih, refProg, refMerge, hro, showRef]
             | register c ex kw => simp [expectList, Event.targets, ih]
+            | probe cl => simp [expectList, Event.targets, ih]
         rw [this]
       | ok o =>
         rw [hro] at hmm
         simp only [hmm.2]
         have c1 : Ctx h0 h1 := ⟨hc, hmm.1⟩
+        have hok := refMergeOp_ok hro
+        have hi : InitOK h0 i := hi'.resolve_left hok.1
         have := evalEvents_spec hc H env (glomitR_bridge H env ⟨.merge, sub, i, o, false⟩)
           (ref := fun e => refSpec e h0 ⟨.merge, sub, i, o, false⟩)
           (good := fun e => HandlerLaw h0 e ∧ regLookup e.foldCatch "UnregisteredTarget" = some "FoldError" ∧
             ((Prog.merge sub i op).usesChain = true → ChainOK e))
-          (fun e he => fun h t c ht' => glomit_spec c e he.1 he.2.1 ⟨.merge, sub, i, o, false⟩ hi hs ht')
+          (fun e he => fun h t c ht' => glomit_spec c e he.1 he.2.1 ⟨.merge, sub, i, o, false⟩ hi hok.2 hs ht')
           events ht r h1 hcr c1 hh
         have hexp : ∀ (es : List Event) (r : Reg),
             expectList H env h0 (fun e => refProg e h0 (Prog.merge sub i op)) es r =
@@ -2319,9 +2814,52 @@ theorem runProgR_spec (H : Hier) (env : Env) (hconv : WFConv env = true) (h0 : H
             cases ev with
             | eval t => simp [expectList, ih, refProg, refMerge, hro]
             | register c ex kw => simp [expectList, ih]
+            | probe cl => simp [expectList, ih]
         rw [hexp]
         exact ⟨hmm.1.trans hmm.1.1 this.1, this.2 [] (by simp) _ (Frame.rfl' (Nat.le_refl _))⟩
     | _ => exact absurd rfl hm
+
+/-- **the whole run**, the constructor of the spec class included: when it refuses its arguments
+    every evaluation shows that error and nothing is touched -/
+theorem runHistory_spec (H : Hier) (env : Env) (hconv : WFConv env = true) (h0 : Heap) (hc : closedHeap h0 = true)
+    (p : Prog) (hin : ∀ k ∈ progVals p, Val.inb h0.length k = true) (hal : p.initAllocates = true)
+    (hw : p.initWF h0 = true) (hlaw : p.opLawful = true) (events : List Event)
+    (ht : ∀ t ∈ Event.targets events, Val.inb h0.length t = true)
+    (r : Reg) (hcr : CacheOK H r) (hh : HistOK H env h0 p events r) :
+    Frame h0.length h0 (runHistory H env p events r h0).2.1 ∧
+      observeAll env h0.length (runHistory H env p events r h0).2.1 [] (runHistory H env p events r h0).1 =
+        expectHistory H env h0 p events r := by
+  unfold runHistory expectHistory
+  cases hct : ctorErr p with
+  | some e => exact ⟨Frame.rfl' (Nat.le_refl _), observeAll_errors env h0.length h0 e _ []⟩
+  | none => exact runProgR_spec H env hconv h0 hc p ⟨hin, hal, hw, hlaw, hct⟩ events ht r hcr hh
+
+/-- whatever the program and the history: the memo stays consistent (and, when the spec object got
+    built, the tables are those of the registrations alone) -/
+theorem runHistory_reg (H : Hier) (env : Env) (p : Prog) (events : List Event) (r : Reg) (h : Heap)
+    (hc : CacheOK H r) :
+    CacheOK H (runHistory H env p events r h).2.2 ∧
+    ((runHistory H env p events r h).2.2 = r ∨
+      C13.EqC (runHistory H env p events r h).2.2 (events.foldl (regAfter H) r)) := by
+  unfold runHistory
+  cases ctorErr p with
+  | some e => exact ⟨hc, Or.inl rfl⟩
+  | none =>
+    simp only
+    by_cases hm : p.isMerge = false
+    · rw [runProgR_eq H env p hm]
+      have := evalEvents_reg (progEvalR_bridge H env p) events r h hc
+      exact ⟨this.2, Or.inr this.1⟩
+    · cases p with
+      | merge sub i op =>
+        simp only [runProgR]
+        rcases mkMerge sub i op h with ⟨res, h1⟩
+        cases res with
+        | error e => exact ⟨hc, Or.inl rfl⟩
+        | ok sp =>
+          have := evalEvents_reg (glomitR_bridge H env sp) events r h1 hc
+          exact ⟨this.2, Or.inr this.1⟩
+      | _ => exact absurd rfl hm
 
 theorem joinWith_append (f : Val → Option (List Val)) (a b : List Val) :
     joinWith f (a ++ b) = match joinWith f a, joinWith f b with
@@ -2614,6 +3152,54 @@ theorem seqLeaves_ok_join (h0 : Heap) :
               have h2 := ihx yb hrest
               simp only [seqLeaves_cons, leaves_succ, hx, h1, h2, if_true]
               rw [happ]
+
+/-- the `n`-fold join is defined exactly when every value met on the way down is iterable -/
+theorem joinN_of_leaves (h0 : Heap) :
+    ∀ (n : Nat) (xs : List Val),
+      joinN h0 n xs = if (seqLeaves (leaves h0 n) xs).2 then some (seqLeaves (leaves h0 n) xs).1 else none := by
+  intro n xs
+  cases hj : joinN h0 n xs with
+  | some ys => rw [seqLeaves_ok_join h0 n xs ys hj]; rfl
+  | none =>
+    by_cases hok : (seqLeaves (leaves h0 n) xs).2 = true
+    · exfalso
+      -- ok leaves give a defined join
+      have key : ∀ (n : Nat) (xs : List Val), (seqLeaves (leaves h0 n) xs).2 = true → (joinN h0 n xs).isSome := by
+        intro n
+        induction n with
+        | zero => intro xs _; simp [joinN]
+        | succ n ih =>
+          intro xs
+          induction xs with
+          | nil => intro _; rw [joinN_succ]; simp only [joinWith]; exact ih [] rfl
+          | cons x xs ihx =>
+            intro h
+            simp only [seqLeaves_cons, leaves_succ] at h
+            cases hx : rawIter1 h0 x with
+            | none => simp [hx] at h
+            | some a =>
+              simp only [hx] at h
+              by_cases ha : (seqLeaves (leaves h0 n) a).2 = true
+              · simp only [ha, if_true] at h
+                have h1 := ih a ha
+                have h2 := ihx h
+                rw [joinN_succ] at h2 ⊢
+                simp only [joinWith, hx]
+                cases hjw : joinWith (rawIter1 h0) xs with
+                | none => simp [hjw] at h2
+                | some b =>
+                  simp only [hjw] at h2 ⊢
+                  rw [joinN_append]
+                  cases hja : joinN h0 n a with
+                  | none => simp [hja] at h1
+                  | some ya =>
+                    cases hjb : joinN h0 n b with
+                    | none => simp [hjb] at h2
+                    | some yb => rfl
+              · simp [ha] at h
+      have := key n xs hok
+      rw [hj] at this; cases this
+    · simp [hok]
 
 theorem pulledValues_items (l : List Val) (f : Nat) (r : List PullObs) :
     pulledValues (l.map (fun v => PullObs.item v f) ++ r) = l ++ pulledValues r := by
